@@ -6,7 +6,7 @@ is copied with those imports redirected to the harness shims, and the files unde
 Writes /verif/.cache/overlay/overlay.json. /repo itself is not touched."""
 import json, os, re, sys, shutil
 REPO = '/repo'
-OUT = '/verif/.cache/overlay'
+OUT = sys.argv[1] if len(sys.argv) > 1 else '/verif/.cache/overlay'
 TARGETS = ['internal/impl', 'internal/protolazy', 'internal/filedesc', 'internal/filetype', 'reflect/protoregistry', 'internal/order', 'types/dynamicpb', 'reflect/protodesc', 'internal/encoding/messageset', 'proto']
 XSYNC = 'google.golang.org/protobuf/verifmc/sched/xsync'
 XATOMIC = 'google.golang.org/protobuf/verifmc/sched/xatomic'
